@@ -634,7 +634,11 @@ func CompareSelect(res *Result, n *proto.NStmt, cols []string, act [][]Val) *Dif
 		if n.HasLimit || n.HasOffset {
 			// without ORDER BY the window of an unordered result is only
 			// judged as a sub-multiset of the full result
-			return subMultiset(exp, act)
+			d := subMultiset(exp, act)
+			if d != nil && subMultiset(reroundedView(exp), act) == nil {
+				return &Diff{"avg-is-rerounded-running-average", d.What + " (the AVG values returned are the running average re-rounded after every row, not sum/count)"}
+			}
+			return d
 		}
 		if msg, ok := multisetMatch(window, act); !ok {
 			if _, ok2 := multisetMatch(reroundedView(window), act); ok2 {
